@@ -194,6 +194,12 @@ impl IndentationVisitor {
         op: &crate::parser::ast::BinaryOperatorSymbol,
         rhs: &Expression,
     ) {
+        // An invalid operand (from a parse error) has no real
+        // position, so there is no gap in the source to fix.
+        if lhs.expr_.is_invalid_or_placeholder() || rhs.expr_.is_invalid_or_placeholder() {
+            return;
+        }
+
         let lhs_end = lhs.position.end_offset;
         let op_start = op.position.start_offset;
         let op_end = op.position.end_offset;
